@@ -124,6 +124,32 @@ func (w *World) collections() []CollectionRow {
 	exported := map[string]bool{}
 	if k := keeperParam(expG.decl); k != "" {
 		exported = collCalls(expG.decl.Body, k, "Walk", "Get", "Peek", "Iterate", "IterateRaw")
+		// … and what the Keeper methods it calls read (`k.Bids(ctx)`, `k.IterateAuctions(ctx, cb)`), two levels
+		var follow func(body *ast.BlockStmt, recv string, depth int)
+		follow = func(body *ast.BlockStmt, recv string, depth int) {
+			if body == nil || depth > 2 {
+				return
+			}
+			ast.Inspect(body, func(n ast.Node) bool {
+				c, ok := n.(*ast.CallExpr)
+				if !ok {
+					return true
+				}
+				s, ok := unparen(c.Fun).(*ast.SelectorExpr)
+				if !ok || !isIdent(s.X, recv) {
+					return true
+				}
+				if m, ok := kp.methods["Keeper"][s.Sel.Name]; ok && m.decl.Body != nil && len(m.decl.Recv.List[0].Names) > 0 {
+					r2 := m.decl.Recv.List[0].Names[0].Name
+					for c := range collCalls(m.decl.Body, r2, "Walk", "Get", "Peek", "Iterate", "IterateRaw") {
+						exported[c] = true
+					}
+					follow(m.decl.Body, r2, depth+1)
+				}
+				return true
+			})
+		}
+		follow(expG.decl.Body, k, 0)
 	}
 	imported := map[string]bool{}
 	// InitGenesis itself, the Keeper methods it calls, and (a long function split into helpers)
